@@ -131,3 +131,112 @@ def build_shipped(name, seed=None):
     if seed is not None:
         env.set_seed(seed)
     return env
+
+
+# ----------------------------------------------------------------------------- hand assembly (differential partner of the YAML factory)
+
+import importlib
+import inspect
+
+from gym_gridverse.envs.reset_functions import reset_function_registry
+from gym_gridverse.envs.reward_functions import reward_function_registry
+from gym_gridverse.envs.terminating_functions import terminating_function_registry
+from gym_gridverse.envs.transition_functions import transition_function_registry
+from gym_gridverse.envs.observation_functions import observation_function_registry
+from gym_gridverse.envs.visibility_functions import visibility_function_registry
+
+_PROTOCOL = {'state', 'action', 'next_state', 'rng', 'grid', 'position'}
+
+
+def _strip(name):
+    """'module:name' -> import module, return name"""
+    if ':' in name:
+        mod, name = name.split(':')
+        importlib.import_module(mod)
+    return name
+
+
+def _object_type(name):
+    name = _strip(name)
+    for cls in go.grid_object_registry:
+        if cls.__name__ == name:
+            return cls
+    raise ValueError(name)
+
+
+def _convert_params(d):
+    """own conversion of the reserved keys of a component entry (name removed)"""
+    out = {}
+    for k, v in d.items():
+        if k == 'name':
+            continue
+        if k == 'shape':
+            v = Shape(v[0], v[1])
+        elif k == 'layout':
+            v = (v[0], v[1])
+        elif k == 'area':
+            v = Area((v[0][0], v[0][1]), (v[1][0], v[1][1]))
+        elif k == 'object_type':
+            v = _object_type(v)
+        elif k == 'colors':
+            v = {go.Color[c] for c in v}
+        elif k == 'distance_function':
+            v = {'manhattan': Position.manhattan_distance, 'euclidean': Position.euclidean_distance}[v]
+        elif k == 'reward_functions':
+            v = [_component(reward_function_registry, e) for e in v]
+        elif k == 'terminating_functions':
+            v = [_component(terminating_function_registry, e) for e in v]
+        elif k == 'transition_functions':
+            v = [_component(transition_function_registry, e) for e in v]
+        elif k == 'visibility_function':
+            v = _component(visibility_function_registry, v)
+        out[k] = v
+    return out
+
+
+def _component(registry, entry):
+    """look the function up by name and bind the parameters it accepts (others are ignored)"""
+    name = _strip(entry['name'])
+    if registry is terminating_function_registry and name in ('reduce_any', 'reduce_all'):
+        parts = [_component(registry, e) for e in entry['terminating_functions']]
+        agg = any if name == 'reduce_any' else all
+        return lambda s, a, n, *, rng=None: agg([p(s, a, n, rng=rng) for p in parts])   # own any/all
+    if registry is reward_function_registry and name == 'reduce_sum':
+        parts = [_component(registry, e) for e in entry['reward_functions']]
+        return lambda s, a, n, *, rng=None: sum([p(s, a, n, rng=rng) for p in parts])    # own sum
+    f = registry[name]
+    accepted = set(inspect.signature(f).parameters)
+    kw = {k: v for k, v in _convert_params(entry).items() if k in accepted}
+
+    def bound(*a, **k):
+        return f(*a, **kw, **k)
+
+    return bound
+
+
+def hand_assemble(data):
+    """the environment the configuration *describes*, assembled without the YAML factory"""
+    reset = _component(reset_function_registry, data['reset_function'])
+    transitions = [_component(transition_function_registry, e) for e in data['transition_functions']]
+    rewards = [_component(reward_function_registry, e) for e in data['reward_functions']]
+    observation = _component(observation_function_registry, data['observation_function'])
+    terminating = _component(terminating_function_registry, data['terminating_function'])
+
+    def transition(state, action, *, rng=None):
+        for t in transitions:
+            t(state, action, rng=rng)
+
+    def reward(state, action, next_state, *, rng=None):
+        total = 0
+        for r in rewards:
+            total = total + r(state, action, next_state, rng=rng)
+        return total
+
+    actions = [Action[a] for a in data['action_space']] if 'action_space' in data else list(Action)
+    sample = reset()
+    st_space = StateSpace(Shape(sample.grid.shape.height, sample.grid.shape.width),
+                          [_object_type(n) for n in data['state_space']['objects']], [go.Color[c] for c in data['state_space']['colors']])
+    osample = observation(sample)
+    ob_space = ObservationSpace(Shape(osample.grid.shape.height, osample.grid.shape.width),
+                                [_object_type(n) for n in data['observation_space']['objects']], [go.Color[c] for c in data['observation_space']['colors']])
+    return GridWorld(st_space, ActionSpace(actions), ob_space, reset, transition, observation, reward, terminating)
